@@ -142,8 +142,8 @@ Prod3(ic, ts, rc) == WMul(WMul(ic, <<ts>>), rc)
 Overflows64(pr) == \E i \in 9 .. Len(pr) : pr[i] # 0                \* does not fit size_t
 Low64(pr) == [i \in 1 .. 8 |-> IF i <= Len(pr) THEN pr[i] ELSE 0]
 
-RECURSIVE Repeat(_, _)
-Repeat(d, n) == IF n = 0 THEN <<>> ELSE d \o Repeat(d, n - 1)
+(* `d` repeated n times *)
+Repeat(d, n) == IF d = <<>> \/ n = 0 THEN <<>> ELSE [i \in 1 .. Len(d) * n |-> d[((i - 1) % Len(d)) + 1]]
 
 (* ---------------------------------------------------------------------------------------------------------- *)
 (* Buffer primitives                                                                                          *)
@@ -181,19 +181,22 @@ IsBound(l) == labs[l][1]
 
 Last(op, r, n, a) == [op |-> op, r |-> r, n |-> n, a |-> a, o0 |-> off]
 
+(* Every action below has the shape  B(precondition on the report) /\ deterministic state update.               *)
+(* B(x) makes TLC evaluate x as one boolean value (disjunctions inside are not split into successor branches).   *)
+B(x) == x = TRUE
+
 (* The write of `app` at the cursor of the current section, as reported by `p`; everything else in `secs` is   *)
 (* untouched.  With app = <<>> this is "nothing written" (the capacity may still have grown).                  *)
 Wr(app, p) ==
   LET s == secs[cur]
       nm == Overwrite(s.mem, off, app)
-  IN /\ CapOK(s, p.cap, Len(nm))
+  IN /\ B(CapOK(s, p.cap, Len(nm)) /\ p.off = off + Len(app) /\ p.size = Len(nm))
      /\ secs' = [secs EXCEPT ![cur] = [mem |-> nm, cap |-> p.cap, fixed |-> s.fixed]]
      /\ off' = off + Len(app)
-     /\ p.off = off' /\ p.size = Len(nm)
      /\ UNCHANGED <<arch, opt, att, cur>>
 (* ... by a call that creates no placeholder: placeholders overlapping the written window are gone *)
 WrP(app, p) == Wr(app, p) /\ slots' = Clobber(slots, cur, off, off + Len(app))
-SameCounts(p) == p.nrel = nrel /\ p.nfix = nfix /\ UNCHANGED <<nrel, nfix>>
+SameCounts(p) == B(p.nrel = nrel /\ p.nfix = nfix) /\ UNCHANGED <<nrel, nfix>>
 
 (* ---------------------------------------------------------------------------------------------------------- *)
 (* Initial state: a CodeHolder initialised for `a`, nothing attached; text section capacity as reported        *)
@@ -207,15 +210,15 @@ DInit(a, o, c) ==
 
 (* Every emitting call on an emitter that is not attached: "if (!_code) return kNotInitialized".               *)
 Detached(op, r) ==
-  /\ ~att /\ r # "Ok"
+  /\ B(~att /\ r # "Ok")
   /\ last' = Last(op, r, 0, 0)
   /\ UNCHANGED <<arch, opt, att, secs, cur, off, labs, slots, nrel, nfix>>
 
 (* CodeHolder::attach(&assembler): "Attach to the end of the .text section." *)
 Attach(r, p) ==
-  /\ ~att /\ r = "Ok"
+  /\ B(~att /\ r = "Ok")
+  /\ B(p.off = Len(secs[1].mem) /\ p.size = Len(secs[1].mem) /\ p.cap = secs[1].cap /\ p.nrel = nrel /\ p.nfix = nfix)
   /\ att' = TRUE /\ cur' = 1 /\ off' = Len(secs[1].mem)
-  /\ p.off = off' /\ p.size = Len(secs[1].mem) /\ p.cap = secs[1].cap /\ p.nrel = nrel /\ p.nfix = nfix
   /\ last' = Last("Attach", r, 0, 0)
   /\ UNCHANGED <<arch, opt, secs, labs, slots, nrel, nfix>>
 
@@ -236,23 +239,23 @@ Align(mode, a, r, app, p) ==
       gap == IF valid THEN Gap(off, a) ELSE 0
       mustFail == ~valid \/ (arch = "a64" /\ mode = ModeCode /\ gap % 4 # 0)
       mayFail == mustFail \/ ~Fits(gap)
-  IN /\ att
-     /\ IF r = "Ok" THEN ~mustFail /\ Len(app) = gap /\ PadOK(mode, app)
-                    ELSE mayFail /\ app = <<>>
+  IN /\ B(att)
+     /\ B(IF r = "Ok" THEN ~mustFail /\ Len(app) = gap /\ PadOK(mode, app)
+                      ELSE mayFail /\ app = <<>>)
      /\ WrP(app, p) /\ SameCounts(p)
      /\ last' = Last("Align", r, Len(app), a)
      /\ UNCHANGED labs
 
 (* ---- embed(data, size): "Embeds raw data into the CodeBuffer." -------------------------------------------- *)
 Embed(data, r, app, p) ==
-  /\ att
-  /\ IF r = "Ok" THEN app = data ELSE ~Fits(Len(data)) /\ app = <<>>
+  /\ B(att)
+  /\ B(IF r = "Ok" THEN app = data ELSE ~Fits(Len(data)) /\ app = <<>>)
   /\ WrP(app, p) /\ SameCounts(p)
   /\ last' = Last("Embed", r, Len(app), 0)
   /\ UNCHANGED labs
 
 (* ---- embed_data_array(type_id, data, item_count, repeat_count) -------------------------------------------- *)
-(* "Embeds a typed data array ... Repeat the given data `repeat_count` times".  `data` = the item_count *      *)
+(* "Embeds a typed data array ... Repeat the given data `repeat_count` times".  `data` = the item_count x       *)
 (* sizeof(type) bytes of the array (given when that is small); ic, rc = item_count, repeat_count as limbs.     *)
 (* Also: embed_int8 .. embed_uint64, embed_float, embed_double, db/dw/dd/dq (one item of the named type).      *)
 EmbedArray(tid, data, ic, rc, r, app, p) ==
@@ -263,14 +266,14 @@ EmbedArray(tid, data, ic, rc, r, app, p) ==
       tot == Low64(pr)
       mustFail == ~TypeValid(tid) \/ (TypeAssigned(tid) /\ ovf)
       mayFail == mustFail \/ ~TypeAssigned(tid) \/ (~empty /\ (~WSmall(tot) \/ ~Fits(WVal(tot))))
-  IN /\ att
-     /\ IF r = "Ok"
-          THEN /\ ~mustFail
-               /\ IF empty THEN app = <<>>
-                  ELSE /\ ~ovf /\ WSmall(tot) /\ WSmall(rc)
-                       /\ Len(data) * WVal(rc) = WVal(tot)
-                       /\ app = Repeat(data, WVal(rc))
-          ELSE mayFail /\ app = <<>>
+  IN /\ B(att)
+     /\ B(IF r = "Ok"
+            THEN /\ ~mustFail
+                 /\ IF empty THEN app = <<>>
+                    ELSE /\ ~ovf /\ WSmall(tot) /\ WSmall(rc)
+                         /\ Len(data) * WVal(rc) = WVal(tot)
+                         /\ app = Repeat(data, WVal(rc))
+            ELSE mayFail /\ app = <<>>)
      /\ WrP(app, p) /\ SameCounts(p)
      /\ last' = Last("EmbedArray", r, Len(app), 0)
      /\ UNCHANGED labs
@@ -285,23 +288,23 @@ EmbedConstPool(l, palign, image, r, app, p, lb) ==
       gap == Gap(off, palign)
       canBind == valid /\ ~IsBound(l)
       mayFail == ~canBind \/ ~Fits(gap + Len(image))
-      bound == [labs EXCEPT ![l] = BoundAt(cur, off + gap)]
-  IN /\ att
-     /\ IF r = "Ok"
-          THEN /\ canBind
-               /\ Len(app) = gap + Len(image)
-               /\ PadOK(ModeData, SubSeq(app, 1, gap))
-               /\ SubSeq(app, gap + 1, Len(app)) = image
-               /\ labs' = bound
-          ELSE /\ mayFail
-               /\ \/ app = <<>> /\ UNCHANGED labs
-                  \/ /\ valid /\ Len(app) = gap /\ PadOK(ModeData, app)
-                     /\ \/ UNCHANGED labs
-                        \/ canBind /\ labs' = bound
-     /\ (valid => lb = labs'[l])
+      same == IF valid THEN lb = labs[l] ELSE TRUE
+      bound == lb = BoundAt(cur, off + gap)
+  IN /\ B(att)
+     /\ B(IF r = "Ok"
+            THEN /\ canBind
+                 /\ Len(app) = gap + Len(image)
+                 /\ PadOK(ModeData, SubSeq(app, 1, gap))
+                 /\ SubSeq(app, gap + 1, Len(app)) = image
+                 /\ bound
+            ELSE /\ mayFail
+                 /\ \/ app = <<>> /\ same                                   \* refused before anything happened
+                    \/ /\ valid /\ Len(app) = gap /\ PadOK(ModeData, app)   \* step 1 done
+                       /\ (same \/ (canBind /\ bound)))                     \* ... and step 2
+     /\ labs' = IF valid THEN [labs EXCEPT ![l] = lb] ELSE labs
      /\ WrP(app, p)
-     /\ p.nrel = nrel /\ UNCHANGED nrel
-     /\ nfix' = p.nfix /\ p.nfix <= nfix              \* binding the label may resolve pending fixups
+     /\ B(p.nrel = nrel /\ p.nfix <= nfix)               \* binding the label may resolve pending fixups
+     /\ nfix' = p.nfix /\ UNCHANGED nrel
      /\ last' = Last("EmbedConstPool", r, Len(app), palign)
 
 (* ---- embed_label(label, data_size) ------------------------------------------------------------------------ *)
@@ -311,19 +314,20 @@ EmbedConstPool(l, palign, image, r, app, p, lb) ==
 (* relocation entry describes it (relocation ORs the value in - the placeholder must be zero); an unbound       *)
 (* label additionally leaves a pending fixup.  The value itself belongs to C03/C04.                             *)
 EffSize(sz) == IF sz = 0 THEN RegSize ELSE sz
+Slot(es) == [sec |-> cur, lo |-> off, hi |-> off + es]
 EmbedLabel(l, sz, r, app, p) ==
   LET es == EffSize(sz)
       mustFail == ~LabelValid(l) \/ es \notin {1, 2, 4, 8}
       mayFail == mustFail \/ ~Fits(es)
-  IN /\ att
-     /\ IF r = "Ok"
-          THEN /\ ~mustFail /\ Len(app) = es /\ AllEq(app, 0)
-               /\ nrel' = nrel + 1 /\ p.nrel = nrel'
-               /\ nfix' = p.nfix /\ (IF IsBound(l) THEN p.nfix = nfix ELSE p.nfix > nfix)
-          ELSE mayFail /\ app = <<>> /\ SameCounts(p)
+  IN /\ B(att)
+     /\ B(IF r = "Ok"
+            THEN /\ ~mustFail /\ Len(app) = es /\ AllEq(app, 0)
+                 /\ p.nrel = nrel + 1
+                 /\ (IF IsBound(l) THEN p.nfix = nfix ELSE p.nfix > nfix)
+            ELSE mayFail /\ app = <<>> /\ p.nrel = nrel /\ p.nfix = nfix)
+     /\ nrel' = p.nrel /\ nfix' = p.nfix
      /\ Wr(app, p)
-     /\ slots' = IF r = "Ok" THEN Clobber(slots, cur, off, off + es) \cup {[sec |-> cur, lo |-> off, hi |-> off + es]}
-                             ELSE slots
+     /\ slots' = IF r = "Ok" THEN Clobber(slots, cur, off, off + es) \cup {Slot(es)} ELSE slots
      /\ last' = Last("EmbedLabel", r, Len(app), 0)
      /\ UNCHANGED labs
 
@@ -337,35 +341,33 @@ EmbedLabelDelta(l, b, sz, r, app, p) ==
       mustFail == ~LabelValid(l) \/ ~LabelValid(b) \/ es \notin {1, 2, 4, 8}
       now == ~mustFail /\ IsBound(l) /\ IsBound(b) /\ labs[l][2] = labs[b][2]
       mayFail == mustFail \/ ~Fits(es) \/ (now /\ ~Encodable(labs[l][3] - labs[b][3], es))
-  IN /\ att
-     /\ IF r = "Ok"
-          THEN /\ ~mustFail /\ Len(app) = es
-               /\ IF now THEN nrel' = nrel /\ p.nrel = nrel
-                         ELSE AllEq(app, 0) /\ nrel' = nrel + 1 /\ p.nrel = nrel'
-               /\ nfix' = p.nfix /\ p.nfix >= nfix
-          ELSE mayFail /\ app = <<>> /\ SameCounts(p)
+  IN /\ B(att)
+     /\ B(IF r = "Ok"
+            THEN /\ ~mustFail /\ Len(app) = es
+                 /\ (IF now THEN p.nrel = nrel ELSE AllEq(app, 0) /\ p.nrel = nrel + 1)
+                 /\ p.nfix >= nfix
+            ELSE mayFail /\ app = <<>> /\ p.nrel = nrel /\ p.nfix = nfix)
+     /\ nrel' = p.nrel /\ nfix' = p.nfix
      /\ Wr(app, p)
-     /\ slots' = IF r = "Ok" THEN Clobber(slots, cur, off, off + es) \cup {[sec |-> cur, lo |-> off, hi |-> off + es]}
-                             ELSE slots
+     /\ slots' = IF r = "Ok" THEN Clobber(slots, cur, off, off + es) \cup {Slot(es)} ELSE slots
      /\ last' = Last("EmbedLabelDelta", r, Len(app), 0)
      /\ UNCHANGED labs
 
 (* ---- new_label / bind ------------------------------------------------------------------------------------- *)
 NewLabel ==
-  /\ att
+  /\ B(att)
   /\ labs' = Append(labs, Unbound)
   /\ last' = Last("NewLabel", "Ok", 0, 0)
   /\ UNCHANGED <<arch, opt, att, secs, cur, off, slots, nrel, nfix>>
 
 (* bind(label): binds to the current section and cursor; "Label can be bound only once."  Appends nothing.     *)
 Bind(l, r, p) ==
-  /\ att
-  /\ IF r = "Ok" THEN /\ LabelValid(l) /\ ~IsBound(l)
-                      /\ labs' = [labs EXCEPT ![l] = BoundAt(cur, off)]
-                      /\ nfix' = p.nfix /\ p.nfix <= nfix
-                 ELSE /\ (IF LabelValid(l) THEN IsBound(l) ELSE TRUE)
-                      /\ UNCHANGED labs /\ nfix' = nfix /\ p.nfix = nfix
-  /\ p.nrel = nrel /\ UNCHANGED nrel
+  /\ B(att)
+  /\ B(IF r = "Ok" THEN LabelValid(l) /\ ~IsBound(l) /\ p.nfix <= nfix
+                   ELSE (IF LabelValid(l) THEN IsBound(l) ELSE TRUE) /\ p.nfix = nfix)
+  /\ B(p.nrel = nrel)
+  /\ labs' = IF r = "Ok" THEN [labs EXCEPT ![l] = BoundAt(cur, off)] ELSE labs
+  /\ nfix' = p.nfix /\ UNCHANGED nrel
   /\ WrP(<<>>, p)
   /\ last' = Last("Bind", r, 0, 0)
 
@@ -373,10 +375,11 @@ Bind(l, r, p) ==
 (* "Sets the current position in the CodeBuffer to `offset`.  The `offset` cannot be greater than buffer size   *)
 (*  even if it's within the buffer's capacity."  Later calls overwrite from there; the size never shrinks.      *)
 SetOffset(o, r, p) ==
-  /\ att
-  /\ IF r = "Ok" THEN o <= Len(secs[cur].mem) /\ off' = o
-                 ELSE o > Len(secs[cur].mem) /\ off' = off
-  /\ p.off = off' /\ p.size = Len(secs[cur].mem) /\ p.cap = secs[cur].cap
+  LET no == IF r = "Ok" THEN o ELSE off IN
+  /\ B(att)
+  /\ B(IF r = "Ok" THEN o <= Len(secs[cur].mem) ELSE o > Len(secs[cur].mem))
+  /\ B(p.off = no /\ p.size = Len(secs[cur].mem) /\ p.cap = secs[cur].cap)
+  /\ off' = no
   /\ SameCounts(p)
   /\ last' = Last("SetOffset", r, 0, 0)
   /\ UNCHANGED <<arch, opt, att, secs, cur, labs, slots>>
@@ -385,35 +388,38 @@ SetOffset(o, r, p) ==
 (* CodeHolder::new_section; kind "dyn" (empty growable buffer), "res" (reserve_buffer(capreq) called on it) or  *)
 (* "fix" (the user installed an external fixed buffer of `capreq` bytes: CodeBufferFlags::kIsExternal|kIsFixed) *)
 NewSection(kind, capreq, c) ==
-  /\ att
-  /\ CASE kind = "dyn" -> TRUE
-       [] kind = "res" -> c >= capreq
-       [] kind = "fix" -> c = capreq
-       [] OTHER -> FALSE
+  /\ B(att)
+  /\ B(CASE kind = "dyn" -> TRUE
+         [] kind = "res" -> c >= capreq
+         [] kind = "fix" -> c = capreq
+         [] OTHER -> FALSE)
   /\ secs' = Append(secs, [mem |-> <<>>, cap |-> c, fixed |-> kind = "fix"])
   /\ last' = Last("NewSection", "Ok", 0, 0)
   /\ UNCHANGED <<arch, opt, att, cur, off, labs, slots, nrel, nfix>>
 
-(* section(Section): "Switches to the given `section`.  Once switched, everything is emitted to `section`" -   *)
+(* section(Section): "Switches to the given `section`.  Once switched, everything is emitted to `section`" -    *)
 (* at its end.  s = 0 stands for a Section that does not belong to the CodeHolder.                              *)
 SwitchSection(s, r, p) ==
-  /\ att
-  /\ IF r = "Ok" THEN s \in 1 .. Len(secs) /\ cur' = s /\ off' = Len(secs[s].mem)
-                 ELSE s \notin 1 .. Len(secs) /\ UNCHANGED <<cur, off>>
-  /\ p.off = off' /\ p.size = Len(secs[cur'].mem) /\ p.cap = secs[cur'].cap
-  /\ SameCounts(p)
-  /\ last' = Last("Section", r, 0, 0)
-  /\ UNCHANGED <<arch, opt, att, secs, labs, slots>>
+  LET ok == r = "Ok"
+      nc == IF ok THEN s ELSE cur
+      no == IF ok THEN Len(secs[s].mem) ELSE off
+  IN /\ B(att)
+     /\ B(IF ok THEN s \in 1 .. Len(secs) ELSE s \notin 1 .. Len(secs))
+     /\ B(p.off = no /\ p.size = Len(secs[nc].mem) /\ p.cap = secs[nc].cap)
+     /\ cur' = nc /\ off' = no
+     /\ SameCounts(p)
+     /\ last' = Last("Section", r, 0, 0)
+     /\ UNCHANGED <<arch, opt, att, secs, labs, slots>>
 
 (* CodeHolder::reserve_buffer(&section->buffer(), n): "Reserves the size of `cb` to at least `n` bytes."        *)
 (* Contents, sizes and the cursor of an attached assembler survive the reallocation.  `c` = capacity of s after *)
 Reserve(s, n, r, c, p) ==
-  /\ att /\ s \in 1 .. Len(secs)
-  /\ IF r = "Ok" THEN /\ c >= n /\ CapOK(secs[s], c, Len(secs[s].mem))
-                      /\ secs' = [secs EXCEPT ![s].cap = c]
-                 ELSE /\ secs[s].fixed /\ n > secs[s].cap /\ c = secs[s].cap
-                      /\ UNCHANGED secs
-  /\ p.off = off /\ p.size = Len(secs[cur].mem) /\ p.cap = secs'[cur].cap
+  LET ns == IF r = "Ok" THEN [secs EXCEPT ![s].cap = c] ELSE secs IN
+  /\ B(att /\ s \in 1 .. Len(secs))
+  /\ B(IF r = "Ok" THEN c >= n /\ CapOK(secs[s], c, Len(secs[s].mem))
+                   ELSE secs[s].fixed /\ n > secs[s].cap /\ c = secs[s].cap)
+  /\ B(p.off = off /\ p.size = Len(secs[cur].mem) /\ p.cap = ns[cur].cap)
+  /\ secs' = ns
   /\ SameCounts(p)
   /\ last' = Last("Reserve", r, 0, 0)
   /\ UNCHANGED <<arch, opt, att, cur, off, labs, slots>>
@@ -422,15 +428,15 @@ Reserve(s, n, r, c, p) ==
 (* an instruction (its encoding is C01/C02's); an x86 instruction asks for 16 spare bytes, so a fixed buffer    *)
 (* may refuse it although it would fit                                                                          *)
 Inst(r, app, p) ==
-  /\ att
-  /\ IF r = "Ok" THEN Len(app) > 0 ELSE secs[cur].fixed /\ app = <<>>
+  /\ B(att)
+  /\ B(IF r = "Ok" THEN Len(app) > 0 ELSE secs[cur].fixed /\ app = <<>>)
   /\ WrP(app, p) /\ SameCounts(p)
   /\ last' = Last("Inst", r, Len(app), 0)
   /\ UNCHANGED labs
 
 (* comment(): goes to the logger only *)
 Comment(r, p) ==
-  /\ att /\ r = "Ok"
+  /\ B(att /\ r = "Ok")
   /\ WrP(<<>>, p) /\ SameCounts(p)
   /\ last' = Last("Comment", r, 0, 0)
   /\ UNCHANGED labs
